@@ -16,6 +16,7 @@ PREFIXES = ["http://a.example/", "http://a.example/ns#", "http://b.example/x/", 
 NAMES = ["a", "b", "c", "", "n1", "n2", "n3", "ü", "日本", "x y", "n4", "n5", "n6", "n7", "n8", "n9", "n10", "n11", "long-name-0123456789"]
 NOSEP = ["urn:isbn:0451450523", "plain", "", "a:b", "ü"]
 LANGS = ["en", "en-US", "de", "ja"]
+LANGS_CASE = ["en-GB", "en-gb", "EN", "En-Us"]  # same tag up to letter case: distinct terms for the generic API
 DTS = [XSD + "integer", XSD + "decimal", XSD + "date", "http://dt.example/t1", "urn:dt:2", "dt-no-sep", XSD + "string"]
 LEX = ["", "1", "01", "hello", "ü", "日本語", "a\nb", " ", "1.50", "x" * 40, "\x00", "\"q\""]
 BN = ["b0", "b1", "", "ü", "n 1"]
@@ -23,7 +24,8 @@ BN = ["b0", "b1", "", "ü", "n 1"]
 
 class G:
     def __init__(self, r: random.Random, *, n_prefixes=4, n_names=6, n_dts=3, star=True, generalized=True,
-                 typed=True):
+                 typed=True, case_langs=True):
+        self.langs = LANGS + (LANGS_CASE if case_langs else [])
         self.r = r
         self.prefixes = r.sample(PREFIXES, min(n_prefixes, len(PREFIXES)))
         self.names = r.sample(NAMES, min(n_names, len(NAMES)))
@@ -45,7 +47,7 @@ class G:
         if k < 0.35:
             return Literal(r.choice(LEX))
         if k < 0.55:
-            return Literal(r.choice(LEX), langtag=r.choice(LANGS))
+            return Literal(r.choice(LEX), langtag=r.choice(self.langs))
         if not self.typed:
             return Literal(r.choice(LEX))
         return Literal(r.choice(LEX), datatype=r.choice(self.dts))
@@ -85,6 +87,8 @@ class G:
                 p = prev[1]
             if r.random() < 0.15:
                 o = prev[2]
+                if isinstance(o, Literal) and o._langtag and len(self.langs) > len(LANGS) and r.random() < 0.5:
+                    o = Literal(o._lex, langtag=o._langtag.swapcase())
         return Triple(s, p, o)
 
     def quad(self, prev=None):
